@@ -174,6 +174,24 @@ func selfTest(c *Ctx) (int, error) {
 		}
 		c.logf("GzipMech with DevSizeNoWrap = TRUE violates C06_ValidAccepted, as it must")
 	}
+	// the container layers: the deviations seeded changes C16-e43 and C06-d43 stand for, and a Close that forgets it has run
+	for _, dv := range [][3]string{{"GzipWriterMech", "MC_GzipWriterMech.cfg", "DevHdrErrNotStored"}, {"GzipWriterMech", "MC_GzipWriterMech.cfg", "DevCloseTwiceTrailer"},
+		{"ZlibReaderMech", "MC_ZlibReaderMech.cfg", "DevNilDictRejected"}} {
+		b, err := os.ReadFile(filepath.Join(c.specDir(), dv[1]))
+		if err != nil {
+			return 0, err
+		}
+		name := "ST_" + dv[2] + ".cfg"
+		res, err := c.TLC(tlc.Run{Module: dv[0], Cfg: name, Timeout: 5 * time.Minute,
+			Inline: map[string]string{name: strings.Replace(string(b), dv[2]+" = FALSE", dv[2]+" = TRUE", 1)}})
+		if err != nil {
+			return 0, err
+		}
+		if res.Violated == "" {
+			return 0, fmt.Errorf("%s with %s = TRUE is not rejected", dv[0], dv[2])
+		}
+		c.logf("%s with %s = TRUE violates %s, as it must", dv[0], dv[2], res.Violated)
+	}
 	// the instance model: working state recycled through a shared pool by an instance that goes
 	// on using it (what seeded change C17-f43 does) makes instances depend on each other
 	{
